@@ -5,6 +5,8 @@ import (
 	"errors"
 	"fmt"
 	"io"
+	"os"
+	"path/filepath"
 	"reflect"
 	"runtime"
 	"strings"
@@ -388,6 +390,7 @@ func runC33(c *mon.Ctx) {
 		"file size classes 0,1,P-1,P,P+1,kP,kP±1,threads*P,random, and just beyond 1/2/3 MiB so that parts straddle MiB multiples with data behind them (quick: up to 1 MiB resp. 3 parts for parts >= 256K; thorough: a quarter up to 8 MiB); scripted retryable faults per request offset (rpc Timeout, context.DeadlineExceeded, net timeout, bursts of up to 7, " +
 		"FLOOD_WAIT_0 / FLOOD_PREMIUM_WAIT_0 in ~12% of cases) incl. on the requests at/after EOF; random per-request delays only shuffle thread completion order. " +
 		"Oracle: download returns nil; WriterAt writes tile [0,size) exactly (no gap, no duplicate, nothing past EOF) with the file's bytes / Writer stream equals the file; returned type equals the served type; no write after return. " +
+		"ToPath arm: Builder.ToPath onto real files under the output directory with the destination absent / empty / shorter / equal / longer (stale non-zero content) / uncreatable, plain, AllowCDN, inline-CDN, WithVerify+CDN and WithVerify+master builders, sizes 0 / below one part / multi-part, 1..8 threads: after a nil error the file must hold exactly the remote bytes (length included); an uncreatable destination must give an error. " +
 		"Requests a real DC would answer with LIMIT_INVALID (limit > 1 MiB, not a 1 KiB multiple, crossing a 1 MiB chunk) are served anyway and counted as observation|... keys, never as a verdict. " +
 		"distinct non-trivial = (mode, arm, part class, size class, thread bucket, fault class) of a completed download")
 	c.Assume("the harness master DC honours offset/limit exactly and returns short/empty data at EOF (upload.getFile with precise flag); flood waits use the real clock (downloader gives tgerr.FloodWait no clock), so only FLOOD_WAIT_0 is injected")
@@ -401,12 +404,23 @@ func runC33(c *mon.Ctx) {
 		byMode                                              map[string]int64
 	}
 	agg.byMode = map[string]int64{}
+	// ToPath arm: real files under c.Out; a few small pool files for the CDN / verified builders
+	nPath := devN(c.N(160, 6000))
+	var pathPool []*cdnFile
+	for i, sz := range []int{0, 5, 4096, 12288, 20000, 40000} {
+		pathPool = append(pathPool, newCDNFile(c.Seed*104723+uint64(i)*31+7, sz))
+	}
 	for w := 0; w < workers; w++ {
 		wg.Add(1)
 		go func() {
 			defer wg.Done()
 			sc := &scratch{}
 			for i := range cases {
+				if i >= pathBase {
+					pc := genPathCase(c, i-pathBase)
+					runPathCase(c, &pc, sc, w, pathPool)
+					continue
+				}
 				cs := genC33Case(c, i)
 				srv := runC33Case(c, &cs, sc)
 				if srv == nil {
@@ -435,9 +449,16 @@ func runC33(c *mon.Ctx) {
 	}
 	for i := 0; i < n; i++ {
 		cases <- i
+		if i%4 == 0 && i/4 < nPath {
+			cases <- pathBase + i/4 // interleaved with the writer arms
+		}
+	}
+	for i := (n + 3) / 4; i < nPath; i++ {
+		cases <- pathBase + i
 	}
 	close(cases)
 	wg.Wait()
+	_ = os.RemoveAll(filepath.Join(c.Out, "topath"))
 	// settle: a write after return can only be missed by a short wait, never invented
 	time.Sleep(50 * time.Millisecond)
 	if lw := lateWrites.Load(); lw > 0 {
@@ -456,6 +477,8 @@ func runC33(c *mon.Ctx) {
 		c.Inconclusive("no fault was injected")
 	}
 }
+
+const pathBase = 1 << 40
 
 func runC33Case(c *mon.Ctx, cs *c33Case, sc *scratch) *plainServer {
 	f := newSimFileIn(sc, c.Seed*1_000_003+uint64(cs.Index), cs.Size)
